@@ -154,7 +154,7 @@ def doc_conforms(t, v, path="$"):
 class C15(PropBase):
     pid = "C15"
     coq_dirs = ["Base", "C08", "C19", "C15"]
-    translators = ["c15_enums.py", "bitflip_consts.py", "c15_schema.py", "c15_keys.py", "c15_fmt.py", "c15_regs.py"]
+    translators = ["c15_enums.py", "bitflip_consts.py", "c19_check.py", "c15_schema.py", "c15_keys.py", "c15_fmt.py", "c15_regs.py"]
     bins = ["c15"]
     has_model_driver = False        # two-stage: the model renders from the facts the harness prints (see extra)
     impl_mem_gb = 6
@@ -436,6 +436,24 @@ class C15(PropBase):
         return [self.gen_case(rng, dist, base) for _ in range(n)], dist, False
 
     # ------------------------------------------------------------------ oracle
+    @staticmethod
+    def conf_texts(compact_text):
+        """the number literals (as written) of crash_info.possible_bit_flips[].confidence, by position in the document (not by a text search:
+        a soft-errors object or a hostile name may contain the word)"""
+        class Lit(str):
+            pass
+        try:
+            d = json.loads(compact_text, parse_float=Lit, parse_int=Lit, parse_constant=Lit)
+        except ValueError:
+            return []
+        ci = d.get("crash_info") if isinstance(d, dict) else None
+        fl = (ci.get("possible_bit_flips") if isinstance(ci, dict) else None) or []
+        out = []
+        for f in fl if isinstance(fl, list) else []:
+            c = f.get("confidence") if isinstance(f, dict) else None
+            out.append("null" if c is None else str(c) if isinstance(c, Lit) else "?")
+        return out
+
     def split(self, ans):
         parts = ans.split("\t")
         if len(parts) != 6 or not parts[0].startswith("F ") or not parts[1].startswith("V ") or not parts[2].startswith("J ") \
@@ -628,7 +646,7 @@ class C15(PropBase):
         # ProcessState), lie in [0,1], and be a shortest round-tripping decimal (what serde_json's ryu writer promises)
         flips = ci.get("possible_bit_flips") or []
         want_bits = [x for x in confbits.split(",") if x]
-        texts = re.findall(r'"confidence":(-?[0-9.eE+-]+|null)', compact_text)
+        texts = self.conf_texts(compact_text)
         if len(flips) != len(want_bits) or len(texts) != len(flips):
             return "possible_bit_flips: %d entries, %d confidences in the state, %d printed" % (len(flips), len(want_bits), len(texts))
         for i, (t, wb) in enumerate(zip(texts, want_bits)):
@@ -636,6 +654,8 @@ class C15(PropBase):
                 return "possible_bit_flips[%d].confidence %s but the state has %s" % (i, t, wb)
             if t == "null":
                 continue
+            if not re.fullmatch(r"-?(0|[1-9][0-9]*)(\.[0-9]+)?([eE][+-]?[0-9]+)?", t):
+                return "possible_bit_flips[%d].confidence %r is not a JSON number" % (i, t)
             bits = struct.unpack("<I", struct.pack("<f", float(t)))[0]
             if bits != int(wb):
                 return "possible_bit_flips[%d].confidence prints %s = f32 bits %#x, the state holds %#x" % (i, t, bits, int(wb))
@@ -801,28 +821,36 @@ class C15(PropBase):
             out.append({"case": None, "profile": "-", "found_input": False,
                         "what": "json-schema.md does not document names the implementation emits: %s" % ", ".join(missing)})
         exe = vlib.ocaml_build(self.pid)
-        compared = mism = 0
+        compared = mism = conf_compared = 0
         wfs = {}
         pretty_whole = {}
         for prof, answers in ctx["impl"].items():
-            lines, idx = [], []
+            lines, idx, rtext_of = [], [], {}
             for i, a in enumerate(answers):
                 if not a or a.startswith("P;;"):
                     continue
                 sp = self.split(a)
                 if sp is None:
                     continue
-                lines.append("%s %s\t%s\t%s" % ("D" if prof == "debug" else "R", sp[0], sp[1], sp[5]))
+                try:
+                    rtexts = self.conf_texts(bytes.fromhex(sp[2]).decode("utf-8")) if sp[2] != "-" else []
+                except (ValueError, UnicodeDecodeError):
+                    rtexts = []
+                hb = [x for x in sp[4].split(",") if x]
+                confs = ",".join("%s:%s" % (b_, t_) for b_, t_ in zip(hb, rtexts) if b_ != "-" and t_ != "null") or "-"
+                lines.append("%s %s\t%s\t%s\t%s" % ("D" if prof == "debug" else "R", sp[0], sp[1], sp[5], confs))
+                rtext_of[len(idx)] = ",".join(rtexts)
                 idx.append(i)
             # the extracted UTF-8 codec / serialiser recurse once per code point of a document: give the driver a large stack
             res, dead = vlib.run_lines(["bash", "-c", "ulimit -s 2000000 2>/dev/null || ulimit -s unlimited 2>/dev/null; exec " + exe],
                                        lines, timeout=600, mem_gb=8)
             if dead:
                 raise vlib.CheckFailure("c15 model driver died at %s" % (dead[0],))
-            for i, line, r in zip(idx, lines, res):
+            for n_, (i, line, r) in enumerate(zip(idx, lines, res)):
                 compared += 1
                 view = line.split("\t")[1]
-                mview, ok, mconf, wf, rconf, rwid, mpretty, pok, rcons, roff, rsort = ((r or "").split("\t") + [""] * 11)[:11]
+                mview, ok, mconf, wf, rconf, rwid, mpretty, pok, rcons, roff, rsort, mtexts, cok = ((r or "").split("\t") + [""] * 13)[:13]
+                conf_compared += len([x for x in rtext_of.get(n_, "").split(",") if x])
                 spi = self.split(answers[i])
                 # the pretty bytes the model must reproduce: print_json(pretty = true)'s own bytes whenever the view is the whole
                 # document (nothing removed), else the harness's to_string_pretty of the view
@@ -836,6 +864,12 @@ class C15(PropBase):
                 if mconf != hconf:
                     what = ("correspondence: confidence of the reported bit flips — the exact binary32 model (C19) computes bits [%s] from the "
                             "details the report prints, the state holds [%s]" % (mconf, hconf))
+                elif mtexts != rtext_of.get(n_, ""):
+                    what = ("correspondence: confidence text — the model renders the binary32 confidences of the bit flips as [%s] (render_f32: widened to binary64, "
+                            "shortest decimal that reads back, ryu's layout; theorem c15_confidence_text), print_json wrote [%s]" % (mtexts, rtext_of.get(n_, "")))
+                elif cok != "1":
+                    what = ("confidence: the Gallina judgement [conf_text_ok] (theorem c15_confidence_text: an RFC 8259 number that reads back as exactly the binary32 value "
+                            "of the state, within [0,1], no shorter decimal reads back) rejects a confidence print_json wrote: %s" % line.rsplit("\t", 1)[1][:200])
                 elif ok == "1" and rcons != "1":
                     what = ("self-consistency: the Gallina checker [consistent] (theorem c15_consistent: counts, frame numbers, missing_symbols, the crashing_thread "
                             "copy = the indexed thread + threads_index + registers in frame 0 only, num_records) rejects the real print_json document")
@@ -885,6 +919,7 @@ class C15(PropBase):
         ctx["info"]["address_display_32bit_platforms"] = self.__dict__.get("_wide32", {})
         ctx["info"]["traces_validated_against_impl"] = compared
         ctx["info"]["correspondence_mismatches"] = mism
+        ctx["info"]["confidence_texts_compared_with_render_f32"] = conf_compared
         ctx["info"]["pretty_compared_with_print_json_bytes"] = pretty_whole.get(True, 0)
         ctx["info"]["pretty_compared_with_to_string_pretty_of_view"] = pretty_whole.get(False, 0)
         ctx["info"]["states_satisfying_wf_state"] = wfs.get("1", 0)
